@@ -225,13 +225,15 @@ def r19_4(ctx):
             src = outer[0].source
             ok_outer = mentions(src, lambda x: x == ("const", 1)) and mentions(src, lambda x: x == ("param", 2))
         r.ob("hops:bounded-loop", len(outer) == 1 and ok_outer, f.site, "the hop loop iterates 1..=max_hops: %s" % (show(outer[0].source, f) if outer else None))
+        # the compared operand is itself the `url` / `method` field of a hop record
+        is_fld = lambda e, fld: e[0] == "field" and e[2] == fld
         inner = []
         for lp in lps:
             if outer and lp is outer[0]:
                 continue
-            if any(a[0] == "call" and "PartialEq" in a[1] and (mentions_field(a[2][0], "url") or mentions_field(a[2][1], "url")) for p in lp.iteration_paths(s) for a, v in p.conds):
+            if any(a[0] == "call" and "PartialEq" in a[1] and (is_fld(a[2][0], "url") or is_fld(a[2][1], "url")) for p in lp.iteration_paths(s) for a, v in p.conds):
                 inner.append(lp)
-        is_eq = lambda a, fld: a[0] == "call" and "PartialEq" in a[1] and (mentions_field(a[2][0], fld) or mentions_field(a[2][1], fld))
+        is_eq = lambda a, fld: a[0] == "call" and "PartialEq" in a[1] and (is_fld(a[2][0], fld) or is_fld(a[2][1], fld))
         sets_loop = lambda p: any(e[0] in ("set", "init") and mentions(e[3], lambda x: x[0] == "agg" and x[2] == "Loop") for e in p.events)
         rows = {}
         verdict_bad = []
